@@ -41,6 +41,26 @@ Proof.
 Qed.
 Print Assumptions C02_holds_for_current_tree.
 
+(** The msg server of the current tree: on every exit of ApplyEvmMsg, after evm.Call AND after evm.Create, the sender
+    nonce is written to msg.Nonce()+1 (facts apply_post_nonce_call / apply_post_nonce_create, extracted by an abstract
+    interpretation of the function body, helpers included); hence every admitted nonce is consumed exactly once and
+    never admitted again, whatever the EVM execution did. *)
+Theorem C02_current_msg_server_writes_nonce :
+  post_nonce_call current_cfg = true /\ post_nonce_create current_cfg = true /\ nonce_reset current_cfg = true.
+Proof. vm_compute. repeat split; reflexivity. Qed.
+
+Theorem C02_nonce_consumed_once_on_current_tree :
+  forall (w : world) (s : st) (x : tx),
+    route_tx current_cfg (t_ext x) = RouteEVM ->
+    (evm_ante current_cfg w s x = None /\ deliver current_cfg w s x = (s, false)) \/
+    (exists ls s1, evm_ante current_cfg w s x = Some s1 /\ direct_eth (t_msgs x) = Some ls /\ admit_seq s ls s1 /\
+       forall b, seq_of (fst (deliver current_cfg w s x)) b = (seq_of s b + count_from b ls)%nat).
+Proof.
+  intros w s x. apply C02_admitted_nonce_consumed_exactly_once.
+  apply C02_cfg_checker_sound. exact C02_current_cfg_ok.
+Qed.
+Print Assumptions C02_nonce_consumed_once_on_current_tree.
+
 Theorem C02_nonce_and_refund_on_current_tree :
   forall (w : world) (s : st) (x : tx),
     world_ok w -> tx_wf w x -> grants_ok w s ->
